@@ -120,13 +120,16 @@ def run(ctx):
 
 
 # ---------------------------------------------------------------------------------------------------------------
-def one_call(S, E, argspec, args_vs, kwargs_vs, vocab=0, direct=False):
+def one_call(S, E, argspec, args_vs, kwargs_vs, vocab=0, direct=False, per_instance=False, echo=False, preamble=False):
     """argspec: [(name, cs, optional?)]; -> dict(sender_ok, outcome, delivered, ms term, region set)"""
     cons = []
     for n, cs, opt in argspec:
         c = S.build(cs)
         cons.append(S.schema.Optional(c, None) if opt else c)
-    w = S.World([n for n, _, _ in argspec], cons, None, vocab=vocab, direct=direct)
+    # echo: the method returns its (single) argument and the interface declares the argument's constraint as the
+    # result constraint too: "and symmetrically for results"
+    w = S.World([n for n, _, _ in argspec], cons, cons[0] if echo else None, vocab=vocab, direct=direct,
+                per_instance=per_instance, echo=echo)
     memo = {}
     args = tuple(S.to_py(v, memo) for v in args_vs)
     kwargs = {n: S.to_py(v, memo) for n, v in kwargs_vs}
@@ -135,6 +138,12 @@ def one_call(S, E, argspec, args_vs, kwargs_vs, vocab=0, direct=False):
         sender_ok = True
     except S.Violation:
         sender_ok = False
+    if preamble:
+        # history on this connection: a call that the receiver refuses in the middle and whose remaining tokens it
+        # discards.  What follows on the connection must be treated exactly as on a fresh one.
+        pre = w.refused_call()
+        if not (pre[0][0].startswith("violation") and pre[1] == 0):
+            raise RuntimeError("the history call was not refused with a Violation: %r" % (pre,))
     sent = []
     real_write = w.cb.transport.write
 
@@ -146,13 +155,16 @@ def one_call(S, E, argspec, args_vs, kwargs_vs, vocab=0, direct=False):
     out = S.outcome_of(res)
     calls = w.target.calls
     r = dict(sender_ok=sender_ok, sent=bool(sent), alive=w.alive(), ncalls=len(calls), detail=out[1] if out[0] != "ok" else None)
-    if out[0] == "ok" and len(calls) == 1:
+    r["echo"] = None
+    if echo and len(calls) == 1:
+        r["echo"] = ("ok", S.canon(out[1])) if out[0] == "ok" else (out[0], out[1])
+    if (out[0] == "ok" or echo) and len(calls) == 1 and w.alive() | echo:
         r["outcome"] = "delivered"
         r["delivered"] = ([S.canon(x) for x in calls[0][1]], sorted([n, S.canon(v)] for n, v in calls[0][2].items()))
     elif out[0] == "dead" or not w.alive():
         r["outcome"] = "dead"
-    elif out[0] == "violation-local" and not sent:
-        r["outcome"] = "sender-rejects"
+    elif out[0] == "violation-local" and not S.is_remote_failure(res[0]):
+        r["outcome"] = "sender-rejects"          # raised locally by callRemote's own check (not a CopiedFailure)
     elif out[0] in ("violation-local", "violation-remote"):
         r["outcome"] = "receiver-rejects"
     else:
@@ -173,6 +185,13 @@ def judge(ctx, S, tag, argspec, args_vs, kwargs_vs, r):
             reg |= S.regions(byname[n], S.canon_vs(v))
     case = dict(argspec=argspec, args=args_vs, kwargs=kwargs_vs)
     want_args = ([S.canon_vs(v) for v in args_vs], sorted([n, S.canon_vs(v)] for n, v in kwargs_vs))
+    if r["sender_ok"] and r["outcome"] == "delivered" and r.get("echo") is not None and r["delivered"] == want_args:
+        # symmetric direction: the target's outbound result check accepted the very same value under the very same
+        # constraint (it just passed the inbound one): the caller must get it
+        if r["echo"] != ("ok", want_args[0][0]):
+            ctx.fail("oracle/result-not-delivered", "the argument was delivered and returned unchanged under the same constraint, "
+                     "but the caller got %r: %r" % (r["echo"], str(case)[:800]), replay=case)
+        ctx.hist("echoed_result", "ok" if r["echo"][0] == "ok" else str(r["echo"][0]))
     if r["sender_ok"]:
         if r["outcome"] == "delivered":
             if r["delivered"] != want_args:
@@ -203,6 +222,60 @@ def judge(ctx, S, tag, argspec, args_vs, kwargs_vs, r):
                      % (r["outcome"], case), replay=case)
     ctx.hist("outcome", r["outcome"])
     ctx.hist("regions", ",".join(sorted(reg)) or "-")
+
+
+_copy_counter = [0]
+
+
+def late_registration(ctx, S, E):
+    """registrations that happen while a connection is already up: a RemoteCopy class registered before / after the
+    Broker pair was connected, whose type name is shorter than, as long as, one longer than and much longer than every
+    name registered so far; the Copyable travels under Any() (bare, in a list, as a dict value).  The sender's check
+    accepts it, so it must be delivered whenever the class was registered by the time the value arrives.
+    (Copyables are outside the Coq model: oracle only.)"""
+    from foolscap import copyable, schema
+    for when in ("before", "after"):
+        longest = max(len(n) for n in copyable.CopyableRegistry)
+        for length in (10, longest, longest + 1, longest + 17):
+            for shape in ("bare", "list", "dict"):
+                _copy_counter[0] += 1
+                name = ("verif.copy%03d." % _copy_counter[0]).ljust(length, "x")[:max(length, 14)]
+
+                class C(copyable.Copyable):
+                    typeToCopy = name
+
+                    def __init__(self, v):
+                        self.v = v
+
+                class RC(copyable.RemoteCopy):
+                    copytype = None
+
+                    def setCopyableState(self, state):
+                        self.__dict__.update(state)
+                cs = {"bare": ["any"], "list": ["list", ["any"], None, 0], "dict": ["dict", ["py", "bytes"], ["any"], None]}[shape]
+                if when == "before":
+                    copyable.registerRemoteCopy(name, RC)
+                w = S.World(["a"], [S.build(cs)], None, vocab=1)
+                if when == "after":
+                    copyable.registerRemoteCopy(name, RC)
+                val = {"bare": C(7), "list": [C(7)], "dict": {b"k": C(7)}}[shape]
+                try:
+                    w.ms.checkAllArgs((val,), {}, False)
+                    sender_ok = True
+                except S.Violation:
+                    sender_ok = False
+                res = w.call((val,), {})
+                out = S.outcome_of(res)
+                got = w.target.calls[0][1][0] if w.target.calls else None
+                inner = got if shape == "bare" else (got[0] if shape == "list" and got else (got.get(b"k") if shape == "dict" and got else None))
+                ok = isinstance(inner, RC) and getattr(inner, "v", None) == 7
+                case = dict(registered=when + " the connection was made", type_name=name, name_length=len(name), constraint=cs)
+                ctx.case(["late-registration", when, length, shape], nontrivial=True)
+                ctx.hist("late_registration", "delivered" if ok else str(out[0]))
+                if sender_ok and not ok:
+                    ctx.fail("oracle/receiver-rejects" if w.alive() else "oracle/receiver-drops-connection",
+                             "the sender's check accepted a Copyable whose RemoteCopy class was registered %s the connection was made "
+                             "(type name of %d bytes) but it was not delivered: %r; %r" % (when, len(name), out, case), replay=case)
 
 
 FIXED = [
@@ -237,15 +310,21 @@ def oracle(ctx, S, E):
     cases = []
     rng = ctx.rng
 
-    def do(tag, argspec, args_vs, kwargs_vs, vocab=None, direct=None):
+    def do(tag, argspec, args_vs, kwargs_vs, vocab=None, direct=None, per_instance=None):
         if vocab is None:
             vocab = ctx.rng.choice([0, 1, 1])          # both initial vocab tables a negotiated connection can have
         if direct is None:
             direct = ctx.rng.random() < 0.4            # both public ways of declaring the method schema
+        if per_instance is None:                       # interface declared on the instance; one python class per group
+            per_instance = ("c%d" % ctx.rng.randrange(6)) if ctx.rng.random() < 0.3 else False
+        echo = len(argspec) == 1 and len(args_vs) == 1 and not argspec[0][2] and ctx.rng.random() < 0.5
+        preamble = ctx.rng.random() < (0.6 if tag == "shared" else 0.25)
+        ctx.hist("after_a_refused_call", preamble)
         ctx.hist("vocab_table", vocab)
         ctx.hist("schema_declared_by", "RemoteMethodSchema(**kwargs)" if direct else "prototype function")
+        ctx.hist("interface_declared_on", "instance" if per_instance else "class")
         try:
-            r = one_call(S, E, argspec, args_vs, kwargs_vs, vocab, direct)
+            r = one_call(S, E, argspec, args_vs, kwargs_vs, vocab, direct, per_instance, echo, preamble)
         except Exception as e:
             import traceback
             ctx.fail("oracle/implementation-raised", "building the schema or calling through it raised %s: %r; case %s"
@@ -306,6 +385,7 @@ def oracle(ctx, S, E):
             do("optional-arg", spec, [["i", 1]], [["b", v]], None, direct)
             do("optional-arg", spec, [["i", 1]], [], None, direct)
             do("optional-arg", [("a", x, True)], [], [["a", v]], None, direct)
+    late_registration(ctx, S, E)
     # one container object occurring twice in a call, under every container constraint kind
     for i in range(ctx.n(160, 1500)):
         g = S.gen_shared_call(rng)
